@@ -25,6 +25,19 @@ class Ctx:
                 facts[crate]["_aligned"] = done
             for new, old in (facts[crate].get("_aligned") or {}).items():
                 self.alpha[("cli::" if crate == "bin" else "") + new] = old
+        # the CLI names the library's entry points by the path rustc prints for them; a `pub use` re-export in lib.rs makes that
+        # `chiritori::clean` instead of `chiritori::chiritori::clean` - the same function
+        if not facts["bin"].get("_entry_paths_done"):
+            import json as _json
+            import re as _re
+            txt = _json.dumps(facts["bin"])
+            txt2 = _re.sub(r"(?<![\w:])chiritori::(clean|list|list_all|ChiritoriConfiguration|TimeLimitedConfiguration|RemovalMarkerConfiguration|ListFormat)(?![\w])",
+                           r"chiritori::chiritori::\1", txt)
+            if txt2 != txt:
+                done_ = facts["bin"].get("_aligned")
+                facts["bin"] = _json.loads(txt2)
+                facts["bin"]["_aligned"] = done_
+            facts["bin"]["_entry_paths_done"] = True
         self.lib = T.Program(facts["lib"])
         self.bin = T.Program(facts["bin"])
         for crate, prog in (("lib", self.lib), ("bin", self.bin)):
@@ -34,6 +47,7 @@ class Ctx:
         self.inlined = {}
         for crate, prog in (("lib", self.lib), ("bin", self.bin)):
             if not facts[crate].get("_inlined_done"):
+                facts[crate]["_debug_asserts_stripped"] = inline.strip_debug_assertions(prog)
                 facts[crate]["_inlined"] = inline.inline_new_functions(prog)
                 facts[crate]["_inlined_away"] = sorted(prog.inlined_away)
                 facts[crate]["_inlined_done"] = True
@@ -61,18 +75,19 @@ def fshort(body):
 DEPENDS = {
     "C02": [("c05", ["C05.R1", "C05.R2", "C05.R3"], "a region may be deleted only if its element is ready: the expiry decision"),
             ("c06", ["C06.R1", "C06.R2", "C06.R3"], "a region may be deleted only if its element is ready: marker / skip decision"),
-            ("c09", ["C09.R1"], "readiness is read from attributes: the tag grammar"),
+            ("c09", ["C09.R1", "C09.R3"], "readiness is read from attributes: the tag grammar"),
             ("c08", ["C08."], "deleted extents are token boundaries: tag recognition"),
             ("c10", ["C10."], "deleted extents are pairs of tags: pairing")],
     "C03": [("c05", ["C05.R1", "C05.R2", "C05.R3"], "a ready element must be recognised as ready: the expiry decision"),
             ("c06", ["C06.R1", "C06.R2", "C06.R3"], "a ready element must be recognised as ready: marker / skip decision"),
-            ("c09", ["C09.R1"], "readiness is read from attributes: the tag grammar"),
+            ("c09", ["C09.R1", "C09.R3"], "readiness is read from attributes: the tag grammar"),
             ("c08", ["C08."], "a ready element must be tokenised as a tag"),
             ("c10", ["C10."], "a ready element must be paired with its closing tag"),
             ("c15", ["C15.R1"], "every marker that was built is deleted from the text")],
     "C04": [("c05", ["C05.R1", "C05.R2", "C05.R3"], "nothing is ready => nothing changes: the expiry decision"),
             ("c06", ["C06.R1", "C06.R2", "C06.R3"], "nothing is ready => nothing changes: marker / skip decision"),
-            ("c09", ["C09.R1"], "malformed / quoted values must not become ready: the tag grammar"),
+            ("c09", ["C09.R1", "C09.R3"], "malformed / quoted values and unregistered names must not become ready: the tag grammar"),
+            ("c02", ["C02.R1"], "nothing but the deletion of ranges touches the text"),
             ("c08", ["C08."], "unterminated tags are text: tag recognition"),
             ("c10", ["C10."], "unclosed elements are not elements: pairing"),
             ("c20", ["C20.R4", "C20.R5", "C20.R6"], "at the command line: the result is written unmodified, and the input is read before the output is created")],
@@ -81,12 +96,14 @@ DEPENDS = {
     "C08": [("c07", ["C07.R4", "C07.R5"], "the tokens are those of the left-to-right scan")],
     "C09": [("c06", ["C06.R1"], "a quoted value is opaque to the removal decision: the marker name is compared as a whole"),
             ("c05", ["C05.R2"], "a quoted value is opaque to the removal decision: the `to` value is used as a whole"),
-            ("c10", ["C10.R5"], "a well-formed tag is parsed whatever its quoted values contain (e.g. the start delimiter)")],
+            ("c10", ["C10.R5"], "a well-formed tag is parsed whatever its quoted values contain (e.g. the start delimiter)"),
+            ("c03", ["C03.R4"], "a quoted value is opaque to the removal decision: the strategy is chosen by attribute *names*")],
     "C11": [("c12", ["C12.R1"], "nothing else is removed: the dedent consumes only blanks in front of the first non-blank")],
     "C13": [("c02", ["C02.R4"], "whole lines are deleted and nothing else: the byte tables of the line scanners")],
     "C14": [("c12", ["C12.R4", "C12.R5"], "whitespace changes stay at the borders: head/tail pair indices and sorted block ranges"),
             ("c04", ["C04.R2"], "whitespace changes stay at the borders: formatter ranges exist only at removed positions")],
-    "C15": [("c16", ["C16.R1"], "same first and last line numbers: both list forms render the same line map")],
+    "C15": [("c16", ["C16.R1", "C16.R7"], "same first and last line numbers: both list forms render the same line map, and a line is what ends in '\\n'")],
+    "C17": [("c03", ["C03.R4", "C03.R6"], "pending regions are built by the same strategies as ready ones: first available strategy, extents")],
     "C18": [("c20", ["C20.R1"], "the delimiters given on the command line reach the library as given")],
 }
 
